@@ -72,7 +72,9 @@ fn gen_tree(rng: &mut Rng, size: usize, mode: LenMode) -> Rose {
     } else {
         random_shape(rng, size)
     };
-    label(rng, &mut t, &LabelOpts { len_mode: mode, ..Default::default() });
+    // a length written on the root itself (legal Newick, stored by the parser) belongs to no branch of the tree
+    let rl = rng.chance(1, 3);
+    label(rng, &mut t, &LabelOpts { len_mode: mode, root_len: rl, ..Default::default() });
     t
 }
 
@@ -743,7 +745,7 @@ pub fn run(prop: &str, thorough: bool, seed: u64, driver: &str, rep: &mut Report
                     // every shape with two length masks
                     for mode in [LenMode::Mixed, LenMode::All, LenMode::None] {
                         let mut t = s.clone();
-                        label(&mut rng, &mut t, &LabelOpts { len_mode: mode, ..Default::default() });
+                        { let rl = rng.chance(1, 3); label(&mut rng, &mut t, &LabelOpts { len_mode: mode, root_len: rl, ..Default::default() }); }
                         trees.push(t);
                         if prop == "C10" {
                             break;
@@ -756,7 +758,7 @@ pub fn run(prop: &str, thorough: bool, seed: u64, driver: &str, rep: &mut Report
                 for s in binary_shapes(n) {
                     let mut t = s.clone();
                     let mode = *rng.pick(&[LenMode::All, LenMode::None, LenMode::Mixed]);
-                    label(&mut rng, &mut t, &LabelOpts { len_mode: mode, ..Default::default() });
+                    { let rl = rng.chance(1, 3); label(&mut rng, &mut t, &LabelOpts { len_mode: mode, root_len: rl, ..Default::default() }); }
                     trees.push(t);
                     rep.count("exhaustive_rooted_binary_shapes");
                 }
